@@ -12,6 +12,7 @@ import (
 )
 
 type Clause struct {
+	Local bool  // proved for the function itself but not assumed by its callers (keeps callers' queries small)
 	Kind string // requires, ensures, assume, invariant, decreases, lemma
 	Name string // lemma name
 	Tags []string
@@ -61,6 +62,9 @@ type Contract struct {
 	AssignTags []string
 	Writes     []*WriteSpec
 	AllocBound *Clause
+	AllocSite  *Clause
+	Trust      []string // obligation kinds assumed instead of proved in this function (reported)
+	Keeps      []*WriteSpec
 	Loops      map[int]*LoopSpec
 	Fresh      []string // result names that are fresh allocations
 	Pure       bool     // result is an uninterpreted function of the arguments (and memory if MemDep)
@@ -278,11 +282,16 @@ func (sp *Specs) parseLine(cur **Contract, line, file string, ln int) error {
 		c.MemDep = strings.Fields(rest)
 	case "fresh":
 		c.Fresh = append(c.Fresh, strings.Fields(rest)...)
-	case "requires", "ensures", "assume", "ghostdef":
+	case "requires", "ensures", "assume", "ghostdef", "localensures":
+		isLocal := kw == "localensures"
+		if isLocal {
+			kw = "ensures"
+		}
 		cl, err := mk(kw, rest)
 		if err != nil {
 			return err
 		}
+		cl.Local = isLocal
 		switch kw {
 		case "requires":
 			c.Requires = append(c.Requires, cl)
@@ -322,6 +331,24 @@ func (sp *Specs) parseLine(cur **Contract, line, file string, ln int) error {
 			return err
 		}
 		c.Writes = append(c.Writes, &WriteSpec{Ptr: parts[0], N: e, Tags: tags})
+	case "trust":
+		c.Trust = append(c.Trust, strings.Fields(rest)...)
+	case "allocsite":
+		cl, err := mk("allocsite", rest)
+		if err != nil {
+			return err
+		}
+		c.AllocSite = cl
+	case "keeps":
+		parts := strings.SplitN(rest, " ", 2)
+		if len(parts) != 2 {
+			return fmt.Errorf("keeps needs a pointer parameter and a byte count")
+		}
+		e, err := parseCExpr(parts[1])
+		if err != nil {
+			return err
+		}
+		c.Keeps = append(c.Keeps, &WriteSpec{Ptr: parts[0], N: e, Tags: tags})
 	case "allocbound":
 		cl, err := mk("allocbound", rest)
 		if err != nil {
